@@ -1313,6 +1313,25 @@ class _Gen:
         if self.chance(1, 10):
             return ["cmp", "bool", self.pick(["==", "!="]), self.bexpr(d - 1), self.bexpr(d - 1)]
         t = self.wpick([(3, "i32"), (2, "u8"), (1, "i8"), (1, "i16"), (1, "u16"), (1, "u32"), (1, "i64"), (1, "u64")])
+        if self.chance(1, 5) and not self.excl("implicit_cast"):
+            # operands of DIFFERENT types: the type checker coerces both to their common type (context.get_common_type:
+            # signed if either is signed, the wider width; `byte < 256` compares as int).  Only pairs whose coercions
+            # do_coerce inserts by itself (implicit_ok); an integer literal is an `int`.
+            s = self.pick([x for x in INT_TYPES if x != t])
+            ct = common_type(s, t)
+            if all(x == ct or implicit_ok(x, ct) for x in (s, t)):
+                a = self.expr(s, d - 1)
+                if t == "i32" and self.chance(2, 3):
+                    lo, hi = trange(s)
+                    edge = [v for v in (hi, hi + 1, hi + 2, hi - 1, lo, lo - 1, lo + 1) if -LITMAX <= v <= LITMAX]
+                    b = ["lit", "i32", self.pick(edge) if edge and self.chance(1, 2) else self.lit_value("i32")]
+                else:
+                    b = self.expr(t, d - 1)
+                a = a if s == ct else ["cast", ct, a, True]
+                b = b if t == ct else ["cast", ct, b, True]
+                if self.chance(1, 2):
+                    a, b = b, a
+                return ["cmp", "bool", self.pick(CMPS), a, b]
         return ["cmp", "bool", self.pick(CMPS), self.expr(t, d - 1), self.expr(t, d - 1)]
 
     def cond(self, d):
@@ -1671,6 +1690,12 @@ class _Gen:
                 for _ in range(self.integer(2, self.prof.max_vectors) if f["params"] else 1):
                     out.append([f["name"], [self.arg_value(t) for _, t in f["params"]]])
         return out
+
+
+def common_type(s, t):
+    """context.get_common_type for two integer types: signed if either is signed, the wider of the two widths"""
+    bits = max(BITS[s], BITS[t])
+    return ("i" if is_signed(s) or is_signed(t) else "u") + str(bits)
 
 
 def implicit_ok(s, t):
